@@ -125,8 +125,13 @@ func c7effect(in c7ins, pc int) c7eff {
 		e.pop, e.push = 2, 2
 	case "SET":
 		e.pop = 3
-	case "DELETE", "COPY", "SETMETHOD", "SETATTR":
+	case "DELETE", "SETMETHOD", "SETATTR":
 		e.pop = 2
+	case "COPY":
+		e.pop = 2
+		if len(in.args) > 0 { // "COPY 1": the element count is pushed (the call's value is used)
+			e.push = a(0)
+		}
 	case "SLICE":
 		e.pop, e.push = 3, 1
 	case "FASTGET", "FASTGETINT", "FASTGETATTR":
@@ -477,6 +482,22 @@ func vs(a int, b ...int) int {
 		"h0 := func() {\n\tcnt++\n}\nh0()\nif cnt > 0 {\n\treturn one()\n}",
 		"h3 := func(p int) (int, int, int) {\n\treturn p, p + 1, p + 2\n}\n_, y, _ := h3(4)\nif y > 0 {\n\treturn t.M(y)\n}",
 		"m[\"k\"] = one()\nm[\"k\"] += one()\nm[\"k\"]++",
+		// every builtin, as a statement where Go allows it and with its value used in every position
+		"r = copy(s, mk())",
+		"r = copy(s, s[one():]) + copy(s, s)",
+		"q, r = copy(s, mk()), len(s)",
+		"r = id(copy(s, mk()))",
+		"if copy(s, mk()) > 1 {\n\tr = 1\n}",
+		"for i := 0; i < copy(s, s); i++ {\n\tr++\n}",
+		"r = cap(s) - cap(s) + len(m) + len(\"ab\")",
+		"r = len(append(s, one()))",
+		"u := make([]int, one())\nr = len(u) + len(make(map[string]int))",
+		"u := new(T)\nr = u.n + 1",
+		"println()",
+		"r = int(float64(one())) + int(byte(q))",
+		"u := string(rune(65 + one()))\nr = len(u) + len([]byte(u))",
+		"if a > 5 {\n\tpanic(\"never\")\n}\nr = 1",
+		"delete(m, \"zz\")\ndelete(m, \"k\")\nr = len(m)",
 	}
 	hoods := []string{
 		"%S",
@@ -795,7 +816,7 @@ func c07corpus(r *report.Run) ([]cItem, []bool) {
 }
 
 func c07run(r *report.Run) {
-	r.Rule("abstract states (function, pc, operand-stack depth above the locals) of every function of every corpus program - call-in-every-position enumeration (64 statement forms with calls of 0/1/2 results and blanks x 6 neighbourhoods), fusion-window programs, wide-frame programs (10 statement groups behind 120..300 locals, entered directly and from a caller with as many live locals), C04 forms, C06, C08, C11, C12 corpora and the Go-statement inputs of the repository's test tables - compiled with the optimizer off and on; ALL paths explored; invariants I1 (one depth per pc), I2 (never pops into locals), I3 (branches stay inside the function, never into a nested header/body), I4 (RETURN n at depth n = declared results; body ends at depth 0), I5 (slot operands below the FUNC slot count), I7 (no placeholder survives), I8 (statement-only top level ends at depth 0 / Eval returns nothing); non-trivial = function with at least one branch")
+	r.Rule("abstract states (function, pc, operand-stack depth above the locals) of every function of every corpus program - call-in-every-position enumeration (79 statement forms with calls of 0/1/2 results and blanks x 6 neighbourhoods), fusion-window programs, wide-frame programs (10 statement groups behind 120..300 locals, entered directly and from a caller with as many live locals), C04 forms, C06, C08, C11, C12 corpora and the Go-statement inputs of the repository's test tables - compiled with the optimizer off and on; ALL paths explored; invariants I1 (one depth per pc), I2 (never pops into locals), I3 (branches stay inside the function, never into a nested header/body), I4 (RETURN n at depth n = declared results; body ends at depth 0), I5 (slot operands below the FUNC slot count), I7 (no placeholder survives), I8 (statement-only top level ends at depth 0 / Eval returns nothing); non-trivial = function with at least one branch")
 	r.Assume("opcode table (pops/pushes/successors) read off do.go, validated on every run by replaying the real VM's trace: each executed (pc, depth) must be an abstract state with the same depth", "the instruction list is read from the public WithCodeDump output")
 	items, stmtOnly := c07corpus(r)
 	r.Set("corpus_items", len(items))
